@@ -5,7 +5,7 @@ from ..nf import Rat, C
 from ..source import Unsupported, AnchorError
 from ..xlate import Interp, Obj, ListV, DictV, Raised
 from .common import same, show, sub
-from .rxnfix import reaction, state_sum
+from .rxnfix import reaction, state_sum, get_public
 
 CLASSES = (('Reaction', 'pmutt.reaction.Reaction'),
            ('ChemkinReaction', 'pmutt.reaction.ChemkinReaction'),
@@ -17,8 +17,8 @@ STATES = (('reactants', 'r'), ('products', 'p'), ('transition state', 't'), ('tr
 
 
 def expected_state(I, rxn, which, method, kw):
-    sp = rxn.attrs['_%s' % which]
-    nu = rxn.attrs['_%s_stoich' % which]
+    sp = get_public(I, rxn, which)
+    nu = get_public(I, rxn, which + '_stoich')
     return state_sum(I, sp.items, nu.items, method, kw, prod=(method == 'get_q'))
 
 
@@ -159,13 +159,13 @@ def check(run, repo):
         n += 3
         # 5. keyword routing + caller dictionaries untouched
         owner, fn = repo.find_method(ci, 'get_state_quantity')
-        run.fn(owner.qual + '.get_state_quantity', 'pmutt._get_specie_kwargs')
+        run.fn(owner.qual + '.get_state_quantity')
         block = DictV({'P': P2})
         foreign = DictV({'P': D.sym('P3'), 'T': D.sym('T3')})
         snap = (dict(block.d), dict(foreign.d))
         got = I.call_method(rxn, 'get_HoRT_state', [], {'state': 'reactants', 'T': T, 'P': P,
                                                         'r0_kwargs': block, 'zz_kwargs': foreign})
-        nu = rxn.attrs['_reactants_stoich'].items
+        nu = get_public(I, rxn, 'reactants_stoich').items
         h0 = rs[0].opaque_methods['get_HoRT'](I, rs[0], [], {'T': T, 'P': P2})
         h1 = rs[1].opaque_methods['get_HoRT'](I, rs[1], [], {'T': T, 'P': P})
         run.check(same(got, h0 * nu[0] + h1 * nu[1]), 'DATAFLOW.species-kwargs', cname + '.get_state_quantity',
@@ -201,7 +201,7 @@ def network(run, repo):
     D = I.D
     T, P, P2 = D.sym('T'), D.sym('P'), D.sym('P2')
     rxn, rs, ps, ts = reaction(I, repo, 'pmutt.reaction.Reaction')
-    nu = rxn.attrs['_reactants_stoich']
+    nu = get_public(I, rxn, 'reactants_stoich')
     for meth in ('get_q', 'get_HoRT', 'get_GoRT'):
         got = I.call_function(m, fn, [], {'species': ListV(rs), 'stoich': nu, 'method_name': meth, 'T': T, 'P': P,
                                           'r1_kwargs': DictV({'P': P2})})
